@@ -216,9 +216,6 @@ pub fn walk(g: &[u8]) -> Layout {
 
 pub struct GlyfWalk {
     pub layouts: Vec<Layout>,
-    pub monotone: bool,
-    pub within: bool,
-    pub offsets: Vec<usize>,
 }
 
 /// loca offsets (the first numGlyphs + 1 entries) and one layout per glyph.
@@ -236,8 +233,6 @@ pub fn walk_glyf(glyf: &[u8], loca: &[u8], long: bool, num_glyphs: usize) -> Opt
             2 * u16::from_be_bytes([loca[at], loca[at + 1]]) as usize
         });
     }
-    let monotone = offs.windows(2).all(|w| w[0] <= w[1]);
-    let within = offs.iter().all(|&o| o <= glyf.len());
     let mut layouts = Vec::with_capacity(num_glyphs);
     for k in 0..num_glyphs {
         let (a, b) = (offs[k], offs[k + 1]);
@@ -249,7 +244,7 @@ pub fn walk_glyf(glyf: &[u8], loca: &[u8], long: bool, num_glyphs: usize) -> Opt
             layouts.push(walk(&glyf[a..b]));
         }
     }
-    Some(GlyfWalk { layouts, monotone, within, offsets: offs })
+    Some(GlyfWalk { layouts })
 }
 
 /// Fold identical layouts into classes [{kind, ok, flags, instr, used, len, why, count, first}].
